@@ -8,3 +8,23 @@ from contracts import C13
 CONTRACTS = list(C13.CONTRACTS)
 LEMMAS = list(C13.LEMMAS)
 ASSUMPTIONS = C13.ASSUMPTIONS + ["dill round-trips the object graph (external)", "equality of the final refinement structure with an uninterrupted run: layer B only"]
+
+# --------------------------------------------------------------------------- what a resumed run selects for refinement
+# A resumed (or restored) run re-evaluates the existing refinement structure before it refines; quantities that are accumulated per object may come out
+# scaled by a common factor (the dimension-wise strategy re-adds the surplus volumes), the margin-based threshold margin * largest benefit scales with them.
+# The selection kernel compares `benefit >= tolerance` and nothing else (C06 contract GetNextObject, verified here for any container size), and that
+# comparison is invariant under a common positive scaling (lemma below) -- so an interrupted run selects the same intervals as an uninterrupted one.
+import z3  # noqa: E402
+from contracts import C06  # noqa: E402
+from pyvc import lemmas as L  # noqa: E402
+
+
+def _scale_invariance():
+    b, t, c = z3.Reals("b t c")
+    return [([c > 0], (b >= t) == (c * b >= c * t))]
+
+
+CONTRACTS += [C06.GetNextObject()]
+LEMMAS += [L.SmtLemma("threshold-comparison-invariant-under-common-positive-scaling", _scale_invariance,
+                      note="benefit >= tolerance  <=>  c*benefit >= c*tolerance for c > 0: an exact comparison does not depend on the common scale of the accumulated benefits")]
+ASSUMPTIONS += ["selection after a resume: RefinementContainer.get_next_object_for_refinement is the exact comparison benefit >= tolerance (C06 contract), which is scale invariant"]
